@@ -416,8 +416,11 @@ MANIFEST = {
                   'sampling). Trusted: Coq kernel; translator part Crypto (padding string, permission masks, salt, iteration counts); '
                   'that the Gallina MD5/SHA-2/AES are MD5/SHA-2/AES (standard test vectors + differential runs; the laws the theorems '
                   'use are proved); Stream::decompress is a parameter (object streams carrying a Filter: no correspondence); password '
-                  'preparation (PDFDocEncoding/SASLprep) is outside the model; save + reload is evaluated on the implementation, not '
-                  'composed with C01 in Coq. No axioms.',
+                  'preparation (PDFDocEncoding/SASLprep) is outside the model. After save + reload: composed with C01 in Coq '
+                  '(C05_encrypt_save_load_decrypt: encrypt, save in either cross-reference format, load -- which decrypts itself when '
+                  'the empty password opens the file and returns the document still encrypted otherwise --, decrypt with the user or '
+                  'the owner password returns the plain document in the sense of C01 same_doc; side condition: the encrypted document '
+                  'is in the domain of C01_full_enc) and evaluated on the implementation. No axioms.',
     'technique': 'Coq proofs over an executable model (transporting the C06 refinement to ISO 32000) + two-way differential '
                  'correspondence + direct property evaluation',
     'design_ref': 'DESIGN.md 6 C05',
